@@ -369,6 +369,10 @@ def finish(ctx, level="proof", checker_cmd=None, extra_assumptions=()):
           % (ctx.pid, discharged, obligations, cov.get("evaluations", 0), len(ctx.disagreements), len(ctx.violations), wall))
     for l in lines:
         print(l)
+    try:
+        os.remove(PROGRESS)
+    except OSError:
+        pass
     return rc
 
 
